@@ -842,6 +842,14 @@ enum FitResp {
     Err(String, String),
     Panic(String),
 }
+/// error texts of the hyperparameter guard: none of them may come back for the configurations this
+/// monitor generates (alpha >= 0, positive tolerance, finite initial parameters of the right shape)
+fn is_config_rejection(e: &str) -> bool {
+    ["alpha must be", "gradient_tolerance must be", "Initial parameters must be finite", "Rows of initial parameter", "Columns of initial parameter"]
+        .iter()
+        .any(|t| e.contains(t))
+}
+
 enum FitOut<M> {
     Ok(M),
     Err(String, String),
@@ -1393,6 +1401,9 @@ fn binary_check<C: Label>(
     let model: BinModel<C> = match bin_fit(fl, x, ycls, ns, cfg, layout) {
         FitOut::Panic(panic) => fail!("C12/binary/fit-panic", {"case": ctxj, "panic": panic}),
         FitOut::Err(_, e) => {
+            if is_config_rejection(&e) {
+                fail!("C12/binary/valid-configuration-rejected", {"case": ctxj, "error": e});
+            }
             c.count("binary-fit-err");
             return Err(inconclusive(format!("binary fit returned Err: {}", e.chars().take(50).collect::<String>())));
         }
@@ -1596,6 +1607,9 @@ fn multi_check<C: Label>(
         FitOut::Err(_, e) => {
             if std::env::var("C12_DEBUG").is_ok() {
                 eprintln!("DBG multi-err idx={} {ctxj} notes={:?}", c.idx, c.notes);
+            }
+            if is_config_rejection(&e) {
+                fail!("C12/multi/valid-configuration-rejected", {"case": ctxj, "error": e});
             }
             c.count("multi-fit-err");
             return Err(inconclusive(format!("multi fit returned Err: {}", e.chars().take(50).collect::<String>())));
